@@ -69,7 +69,7 @@ CHECKS["C09"] = {
         dict(_HTTP, harness="Harness_C09_http", setup="Setup_C09_http", reach=["http.executed", "http.refused"],
              what="Server.ServeHTTP -> GET.Do / POST.Do -> real Executor over 10 documents x operationName x 9 Accept headers x 4 ResponseHeaders configurations"),
         dict(_HTTP, harness="Harness_C09_sequence", setup="Setup_C09_sequence", reach=["seq.executed", "seq.refused"], quick={"sample_models": 30, "sample_every": 7},
-             what="two requests (7 x 7 documents/operationNames, GET or POST each) through one server: the second executes exactly what it names"),
+             what="two requests (9 x 9 documents/operationNames incl. invalid ones, GET or POST each, query cache off / MapCache) through one server: the second executes exactly what it names or is refused on its own merits"),
         dict(_HTTP, harness="Harness_C09_malformed", setup="Setup_C09_malformed", reach=["bodies.rejected", "bodies.ok"],
              what="malformed bodies / query strings on 4 HTTP transports: the answer carries a Content-Type"),
         dict(_HTTP, harness="Harness_C09_fallbacks", setup="Setup_C09_fallbacks", reach=["fallback.checked"],
